@@ -7,7 +7,6 @@
 //! Every harness compares the code under test with an executable ORACLE that is
 //! written from the property text, not from the code under test.
 
-use crate::parser::{self, ParseError};
 use crate::tree::Node;
 use crate::{Error, ErrorQueue, StaticErrorQueue, Value};
 
